@@ -4,6 +4,7 @@ import Heph.Model.GenVar
 import Heph.Model.GenFuncRef
 import Heph.Model.GenNew
 import Heph.Model.GenMatch
+import Heph.Model.GenSig
 import Heph.Props.C06
 import Heph.Proofs.CheckSound
 import Heph.Proofs.CheckSubD
@@ -878,6 +879,127 @@ example :
         [("Box", [(true, ⟨"x", tT, [], fn1K⟩)])] [none]).map fun l => l.length) = some 0 ∧
     (firstCompatible [⟨"n", numK, [], fn1K⟩, ⟨"x", tT, [], fn1K⟩] longK [(tT, longK)] false).map (·.name)
       = some "x" := by
+  decide
+
+/-! ## 8. Decision points `_gen_func_from_existing` (overriding signatures) and `_gen_func_call`
+       (expected types of the call arguments) -/
+
+/-- the overriding function keeps the arity of the overridden one -/
+theorem overrideSig_arity (m : TMap) (tpNames : List String) (ren : TMap) (params : List Ty) (ret : Ty) :
+    (overrideSig m tpNames ren params ret).1.length = params.length := by
+  simp [overrideSig]
+
+/-- **each component of an overriding signature** is the overridden component under
+    `substitute_type` with the superclass map restricted to the keys the function's own type
+    parameters do not shadow; when that yields a type `==` to the old one, the renaming of the
+    function's type parameters is applied on top -/
+theorem overrideComponent_spec (m : TMap) (tpNames : List String) (ren : TMap) (old : Ty) :
+    (beq old (substituteType old (restrictMap m tpNames)) = false →
+      overrideComponent m tpNames ren old = substituteType old (restrictMap m tpNames)) ∧
+    (beq old (substituteType old (restrictMap m tpNames)) = true →
+      overrideComponent m tpNames ren old = substituteType (substituteType old (restrictMap m tpNames)) ren) := by
+  constructor <;> intro h <;> simp [overrideComponent, h]
+
+theorem overrideSig_components (m : TMap) (tpNames : List String) (ren : TMap) (params : List Ty) (ret : Ty)
+    (i : Nat) (hi : i < params.length) :
+    (overrideSig m tpNames ren params ret).1[i]? = some (overrideComponent m tpNames ren params[i]) ∧
+    (overrideSig m tpNames ren params ret).2 = overrideComponent m tpNames ren ret := by
+  simp [overrideSig, hi]
+
+/-- the restricted map only has bindings of the superclass map, none for a shadowed name -/
+theorem restrictMap_spec (m : TMap) (tpNames : List String) (p : Ty × Ty) (h : p ∈ restrictMap m tpNames) :
+    p ∈ m ∧ keyName p.1 ∉ tpNames := by
+  simp only [restrictMap, List.mem_filter, Bool.not_eq_true', List.contains_eq_mem, decide_eq_false_iff_not] at h
+  exact h
+
+/-- without type parameters of its own the overriding function's components are exactly the
+    overridden ones under the superclass map (the checker's override obligation compares with
+    these: `overrideObs`) -/
+theorem overrideComponent_plain (m : TMap) (old : Ty) (h : beq old (substituteType old m) = false) :
+    overrideComponent m [] [] old = substituteType old m := by
+  have hr : restrictMap m [] = m := by simp [restrictMap]
+  simp [overrideComponent, hr, h]
+
+/-- **`_gen_func_call`, ordinary parameters**: when the callee has no vararg parameter the
+    arguments are expected, in order, at the parameter types under `substitute_type` with the final
+    `params_map` (receiver map updated with the function's own instantiation) -/
+theorem callArgsExpected_plain (m : TMap) (ps : List CallParam) (counts : List Nat)
+    (h : ∀ p ∈ ps, p.vararg = false) :
+    callArgsExpected m ps counts = some (ps.map fun p => substituteType p.ty m) := by
+  induction ps with
+  | nil => simp [callArgsExpected]
+  | cons p rest ih =>
+    have hp := h p List.mem_cons_self
+    have ih' := ih (fun q hq => h q (List.mem_cons_of_mem _ hq))
+    simp [callArgsExpected, hp, callArgType, ih']
+
+/-- **every expected argument type is a parameter's type under the map** (the element type
+    `type_args[0]` for a vararg parameter) -/
+theorem callArgsExpected_sound (m : TMap) (ps : List CallParam) :
+    ∀ (counts : List Nat) (out : List Ty), callArgsExpected m ps counts = some out →
+      ∀ t ∈ out, ∃ p ∈ ps, callArgType m p = some t := by
+  induction ps with
+  | nil => intro counts out h t ht; simp [callArgsExpected] at h; subst h; cases ht
+  | cons p rest ih =>
+    intro counts out h t ht
+    unfold callArgsExpected at h
+    by_cases hv : p.vararg = true
+    · simp only [hv, if_true] at h
+      cases counts with
+      | nil => cases h
+      | cons k counts' =>
+        simp only [] at h
+        cases hr : callArgsExpected m rest counts' with
+        | none => rw [hr] at h; cases hc : callArgType m p <;> rw [hc] at h <;> cases h
+        | some more =>
+          rw [hr] at h
+          cases hc : callArgType m p with
+          | none =>
+            rw [hc] at h
+            simp only [] at h
+            by_cases hk : (k == 0) = true
+            · simp only [hk, if_true, Option.some.injEq] at h
+              subst h
+              obtain ⟨q, hq, hqt⟩ := ih counts' more hr t ht
+              exact ⟨q, List.mem_cons_of_mem _ hq, hqt⟩
+            · simp only [hk] at h; cases h
+          | some a =>
+            rw [hc] at h
+            simp only [Option.some.injEq] at h
+            subst h
+            rcases List.mem_append.1 ht with ht | ht
+            · rw [List.eq_of_mem_replicate ht]
+              exact ⟨p, List.mem_cons_self, hc⟩
+            · obtain ⟨q, hq, hqt⟩ := ih counts' more hr t ht
+              exact ⟨q, List.mem_cons_of_mem _ hq, hqt⟩
+    · simp only [hv] at h
+      cases hc : callArgType m p with
+      | none => rw [hc] at h; cases h
+      | some a =>
+        rw [hc] at h
+        cases hr : callArgsExpected m rest counts with
+        | none => rw [hr] at h; cases h
+        | some more =>
+          rw [hr] at h
+          simp only [Bool.false_eq_true, if_false, Option.some.injEq] at h
+          subst h
+          rcases List.mem_cons.1 ht with rfl | ht
+          · exact ⟨p, List.mem_cons_self, hc⟩
+          · obtain ⟨q, hq, hqt⟩ := ih counts more hr t ht
+            exact ⟨q, List.mem_cons_of_mem _ hq, hqt⟩
+
+/-- the hypotheses are satisfiable: overriding `fun f(x: T, n: Number): T` of `Base<T>` in a class
+    that extends `Base<Long>` gives `(Long, Number): Long`; a function type parameter of the same
+    name shadows the superclass binding and is renamed instead; a call to `f` through the map
+    `T ↦ Float` expects `Float` and `Number`, a vararg `Array<T>` parameter two `Float`s -/
+example :
+    (let r := overrideSig [(tT, longK)] [] [] [tT, numK] tT; beqL r.1 [longK, numK] && beq r.2 longK) = true ∧
+    (let r := overrideSig [(tT, longK)] ["T"] [(tT, tparam "U" 0 none)] [tT, numK] tT
+     beqL r.1 [tparam "U" 0 none, numK] && beq r.2 (tparam "U" 0 none)) = true ∧
+    (match callArgsExpected [(tT, floatK)] [⟨tT, false⟩, ⟨numK, false⟩] [] with
+     | some l => beqL l [floatK, numK] | none => false) = true ∧
+    (match callArgsExpected [(tT, floatK)] [⟨numK, false⟩, ⟨mkP boxC [tT], true⟩] [2] with
+     | some l => beqL l [numK, floatK, floatK] | none => false) = true := by
   decide
 
 end Heph.Props.C01
